@@ -233,6 +233,63 @@ func tier(r *report.Run, q, th int) int {
 	return q
 }
 
+// documentedNilDefault: altair.SyncCommitteeBits.HashTreeRoot documents that nil bits (the zero value,
+// whose length cannot depend on the preset in struct form) hash as the preset's default bitvector
+// ("we can at least output the correct HTR"). By composition that covers SyncAggregate and the
+// altair..electra block bodies/blocks, whose other zero-valued fields are empty lists and zero arrays.
+func documentedNilDefault(typ string) bool {
+	if typ == "altair.SyncCommitteeBits" || typ == "altair.SyncAggregate" {
+		return true
+	}
+	for _, f := range []string{"altair.", "bellatrix.", "capella.", "deneb.", "electra."} {
+		if strings.HasPrefix(typ, f) {
+			switch strings.TrimPrefix(typ, f) {
+			case "BeaconBlockBody", "BeaconBlockBodyShallow", "BeaconBlock", "SignedBeaconBlock":
+				return true
+			}
+		}
+	}
+	return false
+}
+
+// runZero judges the ZERO VALUE of the Go struct (never decoded: nil slices, nil bitfields). If the
+// library itself serializes it as the schema's default value, i.e. treats it as that value, its
+// struct root (and the root of its View()) must be the default value's root.
+func runZero(c *Case) (f *report.Failure, judged bool) {
+	p := reg.GetPreset(c.Preset)
+	bd, ok := bindings[c.Type]
+	mk, ok2 := reg.Constructors[c.Type]
+	if p == nil || !ok || !ok2 {
+		return report.Failf("harness", "unknown type/preset %q/%q", c.Type, c.Preset), false
+	}
+	t, err := p.Sch.Get(bd.Decl)
+	if err != nil {
+		return report.Failf("harness", "schema: %v", err), false
+	}
+	def := refssz.Default(t)
+	D := refssz.Serialize(t, def)
+	want := refssz.HashTreeRoot(t, def)
+	o := reg.Obj{Spec: p.Spec, V: mk()}
+	var ser []byte
+	if err, _ := guard("Serialize", func() error { var e error; ser, e = o.Serialize(); return e }); (err != nil || !bytes.Equal(ser, D)) && !documentedNilDefault(c.Type) {
+		return nil, false // the zero value is not a representation of the default value: nothing demanded
+	}
+	var got [32]byte
+	var has bool
+	if err, _ := guard("HashTreeRoot", func() error { got, has = o.HashTreeRoot(); return nil }); err != nil {
+		return report.Failf(c.Type+"/HashTreeRoot/panic-on-zero-value", "[%s] the zero-value struct serializes as the default value but HashTreeRoot panics: %v", c.Preset, err), true
+	}
+	if has && got != want {
+		return report.Failf(c.Type+"/HashTreeRoot/zero-value-differs-from-default", "[%s] the zero-value struct stands for the schema's default value (it serializes as its %d bytes, or its nil fields are documented to hash as the default) but its root is %x; the default value's root is %x", c.Preset, len(D), got, want), true
+	}
+	var sroot [32]byte
+	var hasV bool
+	if err, _ := guard("struct.View()", func() error { var e error; sroot, hasV, e = structView(p.Spec, o.V); return e }); err == nil && hasV && sroot != want {
+		return report.Failf(c.Type+"/HashTreeRoot/zero-value-View()-differs-from-default", "[%s] root of zero-value struct.View() %x != default root %x", c.Preset, sroot, want), true
+	}
+	return nil, true
+}
+
 func TestCheck(t *testing.T) {
 	r := report.Begin("C05")
 	defer r.Finish()
@@ -247,6 +304,10 @@ func TestCheck(t *testing.T) {
 		}
 		if c.Kind == "history" {
 			f, _ := runHistory(&c)
+			return f
+		}
+		if c.Kind == "zero" {
+			f, _ := runZero(&c)
 			return f
 		}
 		f, _ := runRoots(&c)
@@ -271,7 +332,7 @@ func TestCheck(t *testing.T) {
 	for _, f := range reg.Forks {
 		r.Mandatory("history:" + f)
 	}
-	r.Mandatory("history:copy-then-mutate-both", "history:list-longer-than-one-chunk", "shape:at-limit", "roots:view-form", "roots:struct.View()")
+	r.Mandatory("history:copy-then-mutate-both", "history:list-longer-than-one-chunk", "shape:at-limit", "roots:view-form", "roots:struct.View()", "roots:zero-value-struct")
 	r.S.Extra["types_with_view_typedef"] = nview
 	r.S.Extra["registered_types"] = len(types)
 
@@ -324,6 +385,21 @@ func TestCheck(t *testing.T) {
 				continue
 			}
 			typ, p := typ, reg.GetPreset(pn)
+			{
+				zc := &Case{Kind: "zero", Type: typ, Preset: p.Name, Shape: "zero-value-struct"}
+				zf, judged := runZero(zc)
+				r.Eval(1)
+				if judged {
+					r.Class("zero-value-struct-judged")
+					r.Hit("roots:zero-value-struct")
+				} else {
+					r.Class("zero-value-struct-is-not-the-default")
+				}
+				if zf != nil {
+					r.Violate(zc, zf, true)
+					continue
+				}
+			}
 			dt := p.Sch.MustGet(bindings[typ].Decl)
 			size := len(refssz.Serialize(dt, refssz.Default(dt)))
 			for si, shape := range []string{"min", "at-limit"} {
